@@ -280,8 +280,13 @@ def fam_inject(out, tier, rnd):
     k = 0
     # every (profile, situation) gets a different slice of the injections: 1/14 of them (quick), 1/3 (thorough)
     per = max(1, len(inj) // (4 if tier == "thorough" else 14))
+    # delivered in every (profile, situation): PUBLISH with both QoS bits set but an otherwise valid body, each followed by the
+    # PUBREL that would release it if it had been taken for QoS 2; acknowledgements of every type for an identifier in use
+    always = []
+    for first, mid in ((0x36, 21), (0x37, 22), (0x3E, 23), (0x3F, 1)):
+        always += [W.frame(first, W.mstr("q3/t") + W.i16(mid) + b"q3"), W.ack("PUBREL", mid)]
     for prof, sit in combos:
-        todo = [inj[(k * 7919 + j) % len(inj)] for j in range(per)]
+        todo = [inj[(k * 7919 + j) % len(inj)] for j in range(per)] + always
         k += 1
         i = 0
         while i < len(todo):
@@ -369,6 +374,16 @@ def history(w, prof, state, variant):
     w.build(A); w.set(A, "onDisconnection", 1); w.set(A, "onPublish", 1); w.set(A, "window", 2)
     if state == "idle":
         return
+    if state == "inherited":
+        # idle, on a new protocol, with the unfinished requests of a lost persistent connection waiting in the factory
+        w.connect(A, keepalive=0, cleanStart=False, version=4 if variant < 2 else 3); w.recv(A, W.connack(0, 0))
+        if prof != "sub":
+            w.publish(A, "t", "i1", 1); w.publish(A, "t", "i2", 2); w.publish(A, "t", "iheld", 1)
+        if prof != "pub":
+            w.subscribe(A, "s/i", 1)
+        w.lost(A, "lost"); drain(w, 2)
+        w.build(A); w.set(A, "onDisconnection", 1); w.set(A, "onPublish", 1); w.set(A, "window", 2)
+        return
     w.connect(A, keepalive=0, cleanStart=bool(variant % 2), version=4 if variant < 2 else 3)
     if state == "connecting":
         if prof != "sub" and variant >= 1:
@@ -431,10 +446,12 @@ def suffix(w, prof):
 def fam_args(out, tier, rnd):
     V = arg_vectors()
     for prof in ("pub", "sub", "both"):
-        for state in ("idle", "connecting", "connected"):
+        for state in ("idle", "inherited", "connecting", "connected"):
             for variant in ((0, 1, 2) if tier == "thorough" else (rnd.randint(0, 2),)):
                 calls = [(op, a) for (op, a) in V if
-                         op == "set" or (op == "connect" and state == "idle")
+                         (op == "set" and state != "inherited") or (op == "connect" and state == "idle")
+                         or (op == "connect" and state == "inherited" and max([len(x) for x in a.values() if isinstance(x, str)] + [0]) < 70000
+                             and (tier == "thorough" or max([len(x) for x in a.values() if isinstance(x, str)] + [0]) < 100 or a.get("clientId") in (TOOLONG, UTOOLONG)))
                          or (op == "publish" and prof != "sub" and state in ("connecting", "connected"))
                          or (op in ("subscribe", "unsubscribe") and prof != "pub" and state == "connected")]
                 # the twin history without any extra call
@@ -546,6 +563,115 @@ def fam_ids(out, tier, rnd):
                 make(w, "pub1")
                 w.lost(A, "done"); drain(w, 2)
                 out.done(w)
+
+
+# ------------------------------------------------------------------------------------------------ retransmission grid
+def fam_retrygrid(out, tier, rnd):
+    """one unacknowledged packet of every retransmittable kind x protocol version x initial timeout x bandwidth / factor
+    setting x payload size, its retry timer expiring again and again with nothing else going on, then the acknowledgement:
+    the whole delay sequence of a single packet (ceilings, backoff, size term) is on record                     (C08, C13)"""
+    kinds = ("pub1", "pub2", "rel", "sub", "unsub")
+    timeouts = (1, 2, 4, 7, 600, 1024)
+    bws = (None, (1, 2), (1000, 2), (10000, 3), (1000000, 1), (1, 1), (100, 2))
+    K = 22 if tier == "thorough" else 16
+    def mid_of(w):
+        return next((e["mid"] for e in w.lines[-1]["fx"] if e["k"] == "ret"), -1)
+    for kind in kinds:
+        sizes = ((0, 10, 1000, 20000) if tier == "thorough" else (10, 1000)) if kind.startswith("pub") else (0,)
+        for ver in (3, 4):
+            for T in timeouts:
+                for bw in bws:
+                    if not kind.startswith("pub") and bw not in (None, (1, 2)):
+                        continue                     # the bandwidth term applies to PUBLISH only
+                    for size in sizes:
+                        prof = "both" if kind in ("sub", "unsub") or rnd.random() < 0.5 else "pub"
+                        w = out.world(prof)
+                        w.fire_limit = K + 2
+                        w.build(A); w.set(A, "onDisconnection", 1); w.set(A, "window", 4)
+                        w.set(A, "timeout", T)
+                        if bw is not None:
+                            w.set(A, "bandwith", bw[0], bw[1])
+                        w.connect(A, keepalive=0, cleanStart=True, version=ver); w.recv(A, W.connack(0, 0))
+                        if kind == "pub1":
+                            w.publish(A, "t", "x" * size, 1)
+                        elif kind in ("pub2", "rel"):
+                            w.publish(A, "t", "x" * size, 2)
+                        elif kind == "sub":
+                            w.subscribe(A, [("s/1", 1), ("s/2", 2)])
+                        else:
+                            w.unsubscribe(A, ["s/1"])
+                        m = mid_of(w)
+                        if kind == "rel" and m > 0:
+                            w.recv(A, W.ack("PUBREC", m))
+                        n = 0
+                        fac = bw[1] if bw else 2
+                        # A8: the specification's 32-bit integers hold factor^n * size only below 2^30 (driver guard, no judgement)
+                        while (n < K and w.due() and w.due()[0].at < 2 ** 28 and w.in_range(w.due()[0])
+                               and (not kind.startswith("pub") or fac ** (n + 2) * (size + 32) < 2 ** 29)):
+                            w.fire(w.due()[0]); n += 1
+                        if m > 0 and w.t[A].phase == "open":
+                            if kind == "pub1":
+                                w.recv(A, W.ack("PUBACK", m))
+                            elif kind == "pub2":
+                                w.recv(A, W.ack("PUBREC", m)); w.recv(A, W.ack("PUBCOMP", m))
+                            elif kind == "rel":
+                                w.recv(A, W.ack("PUBCOMP", m))
+                            elif kind == "sub":
+                                w.recv(A, W.suback(m, [1, 2]))
+                            else:
+                                w.recv(A, W.ack("UNSUBACK", m))
+                        w.lost(A, "done"); drain(w, 2)
+                        out.done(w)
+
+
+# ------------------------------------------------------------------------------------------------ inbound QoS 2 across connections
+def fam_inbound2(out, tier, rnd):
+    """an inbound QoS 2 exchange cut by a loss at each of its points, followed by every kind of reconnection (clean or
+    persistent, session present or not, 3.1 or 3.1.1, directly or after a refused attempt) and by what a broker may then
+    send: the PUBREL, the PUBLISH again (DUP) and its PUBREL, or another message under the same identifier       (C06)"""
+    conts = ("pubrel", "dup+pubrel", "other+pubrel", "pubrel+pubrel")
+    for prof in ("sub", "both"):
+        for ver in (3, 4):
+            for clean1 in (False, True):
+                for cut in ("after-publish", "after-two", "after-pubrel"):
+                    for clean2 in (False, True):
+                        for sp in (0, 1):
+                            for refused_first in (False, True):
+                                if tier == "quick" and refused_first and (clean1 or cut == "after-two"):
+                                    continue
+                                for cont in conts:
+                                    if tier == "quick" and cont == "pubrel+pubrel" and (clean2 or sp):
+                                        continue
+                                    w = out.world(prof)
+                                    w.build(A); w.set(A, "onDisconnection", 1); w.set(A, "onPublish", 1)
+                                    w.connect(A, keepalive=0, cleanStart=clean1, version=ver); w.recv(A, W.connack(0, 0))
+                                    w.recv(A, W.publish("in/a", b"first", 2, 7))
+                                    if cut == "after-two":
+                                        w.recv(A, W.publish("in/b", b"second", 2, 8, 0, 1))
+                                    if cut == "after-pubrel":
+                                        w.recv(A, W.ack("PUBREL", 7))
+                                    w.lost(A, rnd.choice(["done", "lost"])); drain(w, 2)
+                                    w.build(A); w.set(A, "onDisconnection", 1); w.set(A, "onPublish", 1)
+                                    w.connect(A, keepalive=0, cleanStart=clean2, version=ver)
+                                    if refused_first:
+                                        w.recv(A, W.connack(3, 0))
+                                        if w.t[A].phase == "open":
+                                            w.connect(A, keepalive=0, cleanStart=clean2, version=ver)
+                                    if w.t[A].phase == "open":
+                                        w.recv(A, W.connack(0, sp if ver == 4 else 0))
+                                        if cont == "dup+pubrel":
+                                            w.recv(A, W.publish("in/a", b"first", 2, 7, 1))
+                                        elif cont == "other+pubrel":
+                                            w.recv(A, W.publish("in/c", b"third", 2, 7, 0, 1))
+                                        w.recv(A, W.ack("PUBREL", 7))
+                                        if cont == "pubrel+pubrel":
+                                            w.recv(A, W.ack("PUBREL", 7))
+                                        w.recv(A, W.ack("PUBREL", 8))
+                                        w.recv(A, W.publish("in/d", b"q1", 1, 9))
+                                    if w.t[A].phase != "lost":
+                                        w.lost(A, "done")
+                                    drain(w, 2)
+                                    out.done(w)
 
 # ------------------------------------------------------------------------------------------------ react (stage 3)
 def actions(w):
@@ -688,7 +814,7 @@ def main():
     outdir, fam, tier, seed = sys.argv[1], sys.argv[2], sys.argv[3], int(sys.argv[4])
     rnd = random.Random(seed)
     out = Out(outdir)
-    {"handshake": fam_handshake, "inject": fam_inject, "args": fam_args, "react": fam_react, "refused": fam_refused, "refstate": fam_refstate, "ids": fam_ids}[fam](out, tier, rnd)
+    {"handshake": fam_handshake, "inject": fam_inject, "args": fam_args, "react": fam_react, "refused": fam_refused, "refstate": fam_refstate, "ids": fam_ids, "retrygrid": fam_retrygrid, "inbound2": fam_inbound2}[fam](out, tier, rnd)
     out.close()
 
 
